@@ -7,9 +7,9 @@ from fractions import Fraction
 import numpy as np
 from hypothesis import strategies as st
 
-from vlib import gen_swc
+from vlib import gen_swc, ref_text
 from vlib.gen_swc import frac_of
-from vlib.harness import Sub
+from vlib.harness import Fuzz, Sub
 
 PROPERTY = "C02"
 RULE = (
@@ -315,6 +315,58 @@ def run_sorted(case, ctx):
     ctx.check(t.pid().tolist() == pids and len(t) == n, "sorted/tree", "Tree.from_swc differs from read_swc")
 
 
+# ----------------------------------------------------------------------------- coverage-guided campaigns (thorough tier)
+SWC_MODULES = ["swcgeom.core.swc_utils.io", "swcgeom.utils.file", "swcgeom.core.swc_utils.normalizer"]
+
+
+def decode_raw(data):
+    if len(data) < 2:
+        return None
+    return {"kind": ["str", "bytes", "path"][data[0] % 3], "text": ref_text.SWC_ALPHABET.decode(data[1:])}
+
+
+def raw_seeds(tier):
+    docs = [
+        "# a comment\n1 1 0 0 0 1 -1\n2 3 1 0 0 1 1\n3 3 2 0.5 0 1 2\n",
+        "1 1 0 0 0 1 -1\n2 1 2 0 0 1  1\n3 1 0 2 0 1  1\n",
+        " 10 2 1.5e1 -2.5 +.5 1. -1 0.5\r\n\r\n 11 2 0 0 0 1 10 7\r\n#x\r\n",
+    ]
+    return [bytes([k]) + ref_text.SWC_ALPHABET.encode(d) for k, d in enumerate(docs)]
+
+
+def run_raw(case, ctx):
+    """Any text over the SWC alphabet, read with reset_index=False: the independent line-by-line reference decides
+    whether every line is a data row / comment / blank (then the table is known), whether some line is definitely
+    malformed (fewer than seven fields or a token no number reading accepts: must raise), or neither."""
+    from swcgeom.core.swc_utils import read_swc
+
+    text = case["text"]
+    verdict, rows, comments = ref_text.swc_reference(text)
+    ctx.cls("raw:" + verdict, "src:" + case["kind"])
+    src, kw = _source(text, case["kind"], "utf-8", ctx, "raw.swc")
+    try:
+        with warnings.catch_warnings():
+            warnings.simplefilter("ignore")
+            df, got_comments = read_swc(src, reset_index=False, **kw)
+    except Exception as e:  # noqa
+        if verdict == "table" and ref_text.swc_table_is_closed(rows):
+            ctx.fail("raw/valid-text-rejected", f"{type(e).__name__}: {e} on {text!r}")
+        return
+    if verdict == "malformed":
+        ctx.nontrivial(len(rows) >= 1)
+        ctx.fail("raw/malformed-line-accepted", f"a table of {len(df)} rows was returned for {text!r}")
+    if verdict == "ambiguous":
+        ctx.ambiguous("line-neither-grammatical-nor-definitely-malformed")
+        return
+    ctx.nontrivial(len(rows) >= 3)
+    got = [(int(a), int(b), float(c), float(d), float(e), float(f), int(g)) for a, b, c, d, e, f, g in
+           zip(df["id"], df["type"], df["x"], df["y"], df["z"], df["r"], df["pid"])]
+    ctx.check(got == rows, "raw/one-node-per-data-row-in-file-order-with-the-row's-values",
+              lambda: f"{got} vs {rows} for {text!r}")
+    ctx.check([c.rstrip("\r") for c in got_comments] == [c for c in comments if not c.startswith(" id type x y z r pid")],
+              "raw/comments-in-order", lambda: f"{got_comments!r} vs {comments!r}")
+
+
 SUBCHECKS = [
     Sub("valid", valid_case, run_valid, quick=300, thorough=6000, shards_quick=3,
         required={"src:str": 10, "src:bytes": 10, "src:path": 5, "feat:exponent": 20,
@@ -325,4 +377,12 @@ SUBCHECKS = [
                   "api:Population": 5, "api:Tree.from_swc": 10}),
     Sub("sorted", sorted_case, run_sorted, quick=200, thorough=4000, shards_quick=2,
         required={"unsorted": 20, "root-not-first": 20}),
+    # Atheris / libFuzzer, thorough tier (the line matcher is a C regular expression: little coverage gradient inside it,
+    # the structured targets mainly add volume, the raw target explores line / encoding / option handling)
+    Fuzz("fuzz_valid", run_valid, SWC_MODULES, mode="structured", strategy=valid_case, runs_thorough=2500, shards_thorough=3,
+         max_len=8192),
+    Fuzz("fuzz_malformed", run_malformed, SWC_MODULES, mode="structured", strategy=malformed_case, runs_thorough=2500,
+         shards_thorough=3, max_len=8192),
+    Fuzz("fuzz_raw", run_raw, SWC_MODULES, mode="raw", decode=decode_raw, seeds=raw_seeds, runs_thorough=60000,
+         shards_thorough=6, max_len=400, required={"raw:table": 100, "raw:malformed": 200}),
 ]
